@@ -31,13 +31,21 @@ Readings (review C):
   the harness (`Ts/Props/C16Headers.lean`).
 * Error details are not modelled: `pmtFromBytes` returns `none` for `Err(DemuxError::NotEnoughData
   { field, expected, actual })`.
-* Not tied to a regenerated constant (none exists): the PAT entry size 4.
+* Ties to regenerated constants: the PAT entry size 4 is `Ts.Props.Ties.tie_pat_entry_size`
+  (`Gen.patEntrySize` in the defining equation of `patPrograms`); the PMT header size 4 and the
+  stream-info header size 5 are `Ts.Props.Ties.tie_pmt_header_size` / `tie_stream_info_header_size`
+  (`pmtFromBytes`, `pmtDescriptorBytes`, `pmtStreams`, `streamInfoFromBytes` restated).  The two
+  `tie_*` below are pins on the number only; `tie_*_enc` relate the SPEC's encoders to them.
+  The 13-bit PID bound `0x1fff` of `Pid::new` is `Ts.Props.Ties.tie_pid_new`.  Masks and shifts
+  (`& 0b0001_1111`, `& 0b0000_1111`, `<< 8`) have no regenerated counterpart.
 -/
 namespace Ts.Props.C16
 open Ts Ts.Spec Ts.Tables Ts.Spec.TableSpec Ts.Lemmas.C16
 
 /-! ### ties to the constants regenerated from `/repo/src/psi/pmt.rs` -/
+/-- PIN ONLY: no model definition in the statement; see `Ts.Props.Ties.tie_pmt_header_size` -/
 theorem tie_pmt_header : Ts.Gen.pmtHeaderSize = 4 := by decide
+/-- PIN ONLY: see `Ts.Props.Ties.tie_stream_info_header_size` -/
 theorem tie_stream_header : Ts.Gen.streamInfoHeaderSize = 5 := by decide
 /-- the spec's encoders produce headers of exactly these sizes -/
 theorem tie_pmt_header_enc (rA pcr rB : Nat) :
